@@ -13,7 +13,7 @@ use serde_json::{json, Value};
 use std::collections::{BTreeMap, HashMap, HashSet};
 use std::sync::Mutex;
 
-pub const MAIN_TEXTS: [&str; 11] = [
+pub const MAIN_TEXTS: [&str; 12] = [
     "",
     "lda",
     "lda #",
@@ -26,6 +26,8 @@ pub const MAIN_TEXTS: [&str; 11] = [
     "a: nop\r\ns: {\r\n  a: lda a\r\n  jmp super.a\r\n}\r\njmp s.a\r\n",
     // an expression that continues on the next line (tokens spanning lines)
     ".const k = 1 + /* one\n  two */ 13\na: lda #k\n  .byte 1 +\n2\njmp a\n",
+    // imports by name and under another name
+    ".import foo, bar as baz from \"other.asm\"\na: nop\njsr foo\njsr baz\njmp a\n",
 ];
 pub const OTHER_TEXTS: [&str; 3] = ["foo: nop\n", "foo: nop\nbar: rts\n", "foo: {\n"];
 pub const STRAY_TEXTS: [&str; 1] = ["lda #1\nzz: nop\n"];
@@ -698,7 +700,7 @@ pub fn run(ctx: &Ctx, replay: Option<&Value>) -> i32 {
         closure,
         &[
             "stdio framing is exercised only by the conformance replays against the real `mos lsp` process",
-            "texts are a fixed ladder of 11+3+1 buffers (thorough: plus every token-boundary prefix of the two-scope program); positions are byte columns as the server interprets them",
+            "texts are a fixed ladder of 12+3+1 buffers (thorough: plus every token-boundary prefix of the two-scope program); positions are byte columns as the server interprets them",
             "quick: depth bound 3 and reduced battery; thorough: search to closure",
         ],
     )
